@@ -288,12 +288,10 @@ def run(ctx):
              ctx.construct(ic, extra='RUNNING tasks only'),
              'tasks other than RUNNING are considered stuck', ctx.loc(ic))
     for n, c in rec:
-        g = [(norm(t), pol) for (t, pol, _g) in cfg.guards(n)
-             if isinstance(t, ast.expr)]
-        r4.check(('all_finished', True) in g and
-                 any('> check_after_seconds' in t and pol for t, pol in g)
-                 and ('delta < check_after_seconds', False) in g and
-                 ('not child_executions', False) in g,
+        r4.check(U.guarded(cfg, n, 'all_finished', True) and
+                 U.guarded(cfg, n, '__i > check_after_seconds', True) and
+                 U.guarded(cfg, n, 'delta < check_after_seconds', False) and
+                 U.guarded(cfg, n, 'child_executions', True),
                  ctx.construct(ic, extra='recovery conditions'),
                  'recovery is not limited to old RUNNING tasks whose '
                  'children have all finished', ctx.loc(ic, c))
